@@ -21,6 +21,12 @@ def _ev(model, q, **kw):
     return fi, ev, ev.run_function(fi)
 
 
+def flow_equiv_not(g_ret, g_raise) -> bool:
+    """the result is returned exactly when the span test did not raise"""
+    from .. import flow
+    return flow.equivalent(g_ret, T.mk_not(g_raise))
+
+
 def run(chk: Check, model):
     chk.rule("C15.nonneg", "non-negativity (A3): every static sample passes clip(., 0, None); a trainable delay is min + alpha (max - min) with 0 <= min < max, 0 <= alpha <= 1")
     chk.rule("C15.rng", "key linearity and replay (A16): sample splits the stored key once, returns one half in the new state and feeds the other to exactly one sampler; "
@@ -106,18 +112,25 @@ def run(chk: Check, model):
     chk.add("C15.quantile", "StaticDist.mean is the distribution's mean", r.ret == T.mk_call("self.dist.mean", []), f"mean returns {T.show(r.ret)[:100]}", chk.loc(fi))
     # ---------------------------------------------------------------- mixture grid routine
     fi, ev, r = _ev(model, "utils.mixture_distribution_quantiles")
-    G = T.mk_call("numpy.linspace", [S("grid_min"), S("grid_max")], [("num", T.mk_call("int", [S("N_grid_points")]))])
-    grid = r.env.get("base_grid", T.NONE)
-    if grid != G and not (grid[0] == "call" and T.call_name(grid) == "numpy.linspace" and grid[2][:2] == (S("grid_min"), S("grid_max"))):
-        chk.add("C15.grid", "grid = linspace(grid_min, grid_max, N)", False, f"grid = {T.show(grid)[:120]}", chk.loc(fi))
-    else:
-        chk.add("C15.grid", "grid = linspace(grid_min, grid_max, N)", True, "", chk.loc(fi))
-        G = grid
+    # everything is read off the returned term and the events (no local variable names)
+    ret = r.ret
+    kw = dict(ret[3]) if ret[0] == "call" else {}
+    pos = list(ret[2]) if ret[0] == "call" else []
+    clo = kw.get("func1d", pos[0] if pos else T.NONE)
+    # the grid is the array the result indexes
+    G = T.NONE
+    if clo[0] == "closure":
+        q0 = ev.invoke(clo, [S("c")], r.frame)
+        G = q0[1] if q0[0] == "index" else T.NONE
+    okg = G[0] == "call" and T.call_name(G) == "numpy.linspace" and G[2][:2] == (S("grid_min"), S("grid_max"))
+    chk.add("C15.grid", "grid = linspace(grid_min, grid_max, N)", bool(okg), f"grid = {T.show(G)[:120]}", chk.loc(fi))
     cdfs = [e for e in r.events if e.kind == "call" and e.name.endswith(".cdf")]
     chk.add("C15.grid", "every CDF is evaluated on the grid", len(cdfs) == 2 and all(any(x == G for x in T.walk(e.args[0])) for e in cdfs if e.args),
             f"cdf calls on {[T.show(e.args[0])[:80] for e in cdfs if e.args]}", chk.loc(fi))
-    cdf_grid = r.env.get("cdf_grid", T.NONE)
-    fb = T.assume(cdf_grid, ("sym", "exc1:NotImplementedError"), True) if cdf_grid[0] == "ite" else T.NONE
+    axis = kw.get("axis", pos[1] if len(pos) > 1 else T.NONE)
+    cdf_grid = kw.get("arr", pos[2] if len(pos) > 2 else T.NONE)
+    ok = ret[0] == "call" and T.call_name(ret) == "numpy.apply_along_axis" and clo[0] == "closure" and axis == T.ZERO
+    chk.add("C15.grid", "the per-observation routine is applied along the grid axis of the cdf", bool(ok), f"result = {T.show(ret)[:200]}", chk.loc(fi))
     direct = cdf_grid[3] if cdf_grid[0] == "ite" else cdf_grid
     ok = direct[0] == "call" and T.call_name(direct) == "dist.cdf"
     okf = False
@@ -130,29 +143,38 @@ def run(chk: Check, model):
             w = [x for x in T.walk(prod) if x == S("dist.mixture_distribution.probs")]
             okf = len(comp) >= 1 and len(w) >= 1 and prod == T.mul(comp[0], T.mk_index(S("dist.mixture_distribution.probs"), T.NONE))
     chk.add("C15.grid", "cdf = dist.cdf(grid), fallback sum_k w_k cdf_k(grid) over the last axis", bool(ok and okf), f"cdf grid = {T.show(cdf_grid)[:260]}", chk.loc(fi))
-    clo = r.env.get("get_quantiles_for_one_observation", T.NONE)
-    ret = r.ret
-    ok = ret[0] == "call" and T.call_name(ret) == "numpy.apply_along_axis" and dict(ret[3]).get("func1d") == clo and dict(ret[3]).get("arr") == cdf_grid and dict(ret[3]).get("axis") == T.ZERO
-    chk.add("C15.grid", "the per-observation routine is applied along the grid axis of the cdf", bool(ok), f"result = {T.show(ret)[:200]}", chk.loc(fi))
     if clo[0] == "closure":
         q1 = ev.invoke(clo, [S("c")], r.frame)
-        P = r.env.get("probs_row_grid", T.NONE)
         ok = q1[0] == "index" and q1[1] == G and q1[2][0] == "call" and T.call_name(q1[2]) == "numpy.argmax" and dict(q1[2][3]).get("axis") == T.ONE
-        cmpok = False
+        cmpok, P = False, T.NONE
         if ok:
             c = q1[2][2][0]
-            cmpok = c in (T.mk_call("numpy.greater", [S("c"), P]), T.mk_call("numpy.less", [P, S("c")]), T.lt(P, S("c")))
+            if c[0] == "call" and T.call_name(c) in ("numpy.greater", "numpy.less") and len(c[2]) == 2:
+                a_, b_ = c[2] if T.call_name(c) == "numpy.greater" else (c[2][1], c[2][0])
+                cmpok, P = a_ == S("c"), b_
+            elif c[0] == "lt0":
+                for cand in [x for x in T.walk(c) if x[0] == "call" and T.call_name(x) in ("numpy.transpose", "numpy.tile", "numpy.broadcast_to")]:
+                    if c == T.lt(cand, S("c")):
+                        cmpok, P = True, cand
+                        break
         chk.add("C15.grid", "quantile = grid[first index with cdf > p]", bool(ok and cmpok), f"per-observation result = {T.show(q1)[:240]}", chk.loc(fi))
         chk.add("C15.grid", "probabilities compared are the requested ones", any(x[0] == "call" and T.call_name(x) in ("numpy.tile", "numpy.broadcast_to", "numpy.repeat") and x[2] and x[2][0] == S("probs") for x in T.walk(P)) or P == S("probs"), f"probs grid = {T.show(P)[:160]}", chk.loc(fi))
     else:
         chk.add("C15.grid", "quantile = grid[first index with cdf > p]", False, "per-observation routine not found", chk.loc(fi))
-    raises = [e for e in r.events if e.kind == "raise" and e.func == fi.qualname]
-    gc = r.env.get("grid_check", T.NONE)
-    rr = [e for e in raises if e.guard == T.mk_not(gc) or T.assume(e.guard, gc, False) == T.TRUE]
-    lo_ok = any(x[0] == "le0" or x[0] == "call" for x in T.walk(gc))
+    # the span test is the guard of the RuntimeError: min(probs) / max(probs) must lie within the cdf values of the grid
+    def _no_exc(g):
+        for x in {x for x in T.walk(g) if x[0] == "sym" and x[1].startswith("exc")}:
+            g = T.assume(g, x, False)
+        return g
+    raises = [e for e in r.events if e.kind == "raise" and e.func == fi.qualname and _no_exc(e.guard) != T.FALSE]
+    ok = len(raises) == 1
+    gc = raises[0].guard if ok else T.NONE
     want_lo = [x for x in T.walk(gc) if x[0] == "call" and T.call_name(x) == "min" and x[2] == (S("probs"),)]
     want_hi = [x for x in T.walk(gc) if x[0] == "call" and T.call_name(x) == "max" and x[2] == (S("probs"),)]
-    chk.add("C15.grid", "a grid not spanning [min p, max p] raises", len(rr) == 1 and bool(want_lo) and bool(want_hi) and lo_ok, f"span test = {T.show(gc)[:240]}", chk.loc(fi))
+    uses_cdf = any(x == cdf_grid for x in T.walk(gc)) if cdf_grid != T.NONE else False
+    rets = [e for e in r.events if e.kind == "return" and e.func == fi.qualname]
+    ok = ok and bool(want_lo) and bool(want_hi) and uses_cdf and len(rets) == 1 and flow_equiv_not(rets[0].guard, gc)
+    chk.add("C15.grid", "a grid not spanning [min p, max p] raises", bool(ok), f"raise guard = {T.show(gc)[:240]}", chk.loc(fi))
     # ---------------------------------------------------------------- default delay
     for cls in ("Connection", "BaseNode"):
         fi, ev, r = _ev(model, f"node.{cls}.__init__")
